@@ -50,7 +50,11 @@ def gen_cfg(rng, profile="faithful"):
         for m in take:
             m["cfg"] = cfgs[-1]["id"]
     # sets: random nesting of the items
-    cfg = dict(nodes=nodes, cfgs=cfgs, nfiles=rng.randint(1, 2), set_layout=rng.randint(0, 3), inj_err=None, seed_note=profile)
+    cfg = dict(nodes=nodes, cfgs=cfgs, nfiles=rng.randint(1, 2), set_layout=rng.randint(0, 4), inj_err=None, seed_note=profile)
+    if cfg["set_layout"] == 4:
+        # inline sets nested three levels deep inside wire.Build; every Bind stays next to its provider
+        for nd in nodes:
+            nd.pop("apart", None)
     # a second injector in the same package, for the sub-graph below one provider (shares providers with the first;
     # a bound implementation is requested directly, so its provider is listed without the Bind)
     cfg["second"] = None
@@ -202,7 +206,17 @@ def render(cfg, pkgname):
         a = [x for _, its in items[:half] for x in its]
         b = [x for _, its in items[half:] for x in its]
         cfg["_first_list"] = [k for k, _ in items[:half]]     # which entries went into the first element list
-        if layout == 1:
+        if layout == 4:
+            third = max(1, len(items) // 3)
+            c1 = [x for _, its in items[:third] for x in its]
+            c2 = [x for _, its in items[third:2 * third] for x in its]
+            c3 = [x for _, its in items[2 * third:] for x in its]
+            cfg["_first_list"] = None
+            inner = "wire.NewSet(%s)" % ", ".join(c3)
+            mid = "wire.NewSet(%s)" % ", ".join(c2 + [inner])
+            body = "func Init(%s) %s {\n\twire.Build(%s)\n\treturn %s\n}\n" % (params, root_ret, ", ".join(c1 + [mid]), root_zero)
+            wire_files["wire.go"] = hdr + body
+        elif layout == 1:
             # set reference + inline nested set
             s = "var SetA = wire.NewSet(%s)\n\n" % ", ".join(a) if a else ""
             build = (["SetA"] if a else []) + ["wire.NewSet(%s)" % ", ".join(b)]
